@@ -650,6 +650,8 @@ def r10_args_agree(c, facts, rule='C01.R10'):
 
 
 def run(c, facts):
+    import c09 as _c09
+    c.run(lambda c: _c09.r9_mark_monotone(c, facts, rule='C01.R14'))
     import c02 as _c02
     R13 = c.rule('C01.R13', 'CONCAT-PATH: concat keeps the whole right path, so the "a path has at least one segment" invariant that Uri::append unwraps holds for every accepted program (shared with C02.R12)')
     c.shared(R13, _c02.r12_combine, 'C02.R12', facts)
